@@ -30,8 +30,12 @@ VARIABLES l, cur, opt, kq, tq, kN, tN, ended, failed, errmsg, inTab, afterTab, t
 vars == <<l, cur, opt, kq, tq, kN, tN, ended, failed, errmsg, inTab, afterTab, tabCleared, held, phys, mphys, aphys, must, pend, onJust, prevOut, prevTimeout, viol, cs, lay, flushed>>
 
 EndEv == [t |-> "E", k |-> ""]
-NoPend == [on |-> FALSE, keys |-> <<>>, interval |-> 0, delay |-> 0, lo |-> 0, hi |-> 0, open |-> FALSE]
-NoMust == [on |-> FALSE, kind |-> "", evs |-> <<>>, on2 |-> FALSE, evs2 |-> <<>>]
+NoPend == [on |-> FALSE, keys |-> <<>>, interval |-> 0, delay |-> 0, lo |-> 0, hi |-> 0, open |-> FALSE, sent |-> FALSE]
+\* q: writes owed for key events that were read EARLIER than the one `evs` belongs to and have not been seen yet. A reader may fetch several events with
+\* one system call and hand them to the loop one by one (the reads of the scripted device then get ahead of the writes): "each non-empty step written once
+\* and in order" is a statement about the writes, so they are matched first in, first out, and what is still owed is asked for when the loop goes back to
+\* waiting, reads the tablet switch or returns - not at the next read.
+NoMust == [on |-> FALSE, kind |-> "", evs |-> <<>>, on2 |-> FALSE, evs2 |-> <<>>, q |-> <<>>]
 Lost == [pc |-> "lost"]
 \* how the trace was recorded (reset line). slack: by how many us a requested time-out may fall short of the schedule
 \* (the system-call level sees mio's whole milliseconds: the real driver truncates); errtext: whether the error text
@@ -67,12 +71,18 @@ TabQ(arr) == [i \in 1..Len(arr) |-> arr[i] = "On"]
 Tag(c, t) == IF c THEN {t} ELSE {}
 \* evaluated at every call that is not a send: an owed send did not happen; keys survived the tablet switch
 \* (after a failed call nothing is owed any more: C20 obliges the loop to stop without a further write)
-Owed == IF failed THEN {} ELSE
-        Tag(must.on, IF must.kind = "chord" THEN "C11-chord-missing" ELSE "C10-send-missing-" \o must.kind)
+Owed0(stepToo) == IF failed THEN {} ELSE
+        Tag(must.on /\ (stepToo \/ must.kind # "step"), IF must.kind = "chord" THEN "C11-chord-missing" ELSE "C10-send-missing-" \o must.kind)
+        \cup Tag(stepToo /\ must.q # <<>>, "C10-send-missing-step")
         \* after a tablet-mode change the loop is to behave as a newly started one: a new loop would write exactly the wanted chord
         \cup Tag(must.on /\ must.kind = "chord" /\ afterTab, "C12-chord-not-as-fresh-after-tablet-mode")
         \cup Tag(~must.on /\ must.on2, "C12-not-fresh-after-tablet-mode")
         \cup Tag(onJust /\ held # {}, "C12-not-released-at-tablet-on")
+Owed == Owed0(TRUE)
+\* at a read of the keyboard the write owed for an earlier key event may still come (see NoMust)
+OwedAtRead == Owed0(FALSE)
+\* the writes still owed for key events, oldest first, when another key event is read
+QAfterRead == IF must.on /\ must.kind = "step" THEN Append(must.q, [evs |-> must.evs, on2 |-> must.on2, evs2 |-> must.evs2]) ELSE must.q
 AfterFailure == Tag(failed, "C20-call-after-failure")
 
 Report(id, v) == /\ (v \ KnownIds # {} => PrintT(<<"BAD", id, v \ KnownIds>>))
@@ -143,7 +153,10 @@ ConsumeLine ==
            kN1 == kN \/ r.arrK # <<>>   tN1 == tN \/ r.arrT # <<>>
            isErr == r.res = "err"
            \* the clock read that arms the timer happens after the send of the firing step (if any) and before the next call
-           pendC == IF pend.on /\ pend.open /\ r.c # "send" THEN [pend EXCEPT !.hi = r.tin + pend.delay * 1000, !.open = FALSE] ELSE pend
+           \* (a read of the keyboard bounds it only when a write has been seen since the firing event was read: records of one and the same system call
+           \* - a reader that fetches several events at once - lie before the loop has even been given the firing event)
+           pendC == IF pend.on /\ pend.open /\ (r.c \in {"poll", "tab", "register"} \/ (r.c = "kbd" /\ pend.sent))
+                    THEN [pend EXCEPT !.hi = r.tin + pend.delay * 1000, !.open = FALSE] ELSE pend
        IN
        /\ Conf(r) /\ prevOut' = r.tout /\ cur' = cur /\ lay' = lay /\ opt' = opt
        /\ aphys' = HeldAfter(aphys, SelectSeq(r.arrK, LAMBDA e: e.t # "E"))
@@ -183,7 +196,7 @@ ConsumeLine ==
                  /\ kN' = (kN1 /\ ~(r.res = "dev" /\ InSeq(r.devs, "K")))
                  /\ tN' = (tN1 /\ ~(r.res = "dev" /\ InSeq(r.devs, "T")))
                  \* an empty chord (no keys, or all of them held) owes nothing; writing an empty batch for it is tolerated
-                 /\ must' = IF fire /\ ~inTab THEN [on |-> chord # <<>>, kind |-> IF chord # <<>> THEN "chord" ELSE "emptychord", evs |-> chord, on2 |-> FALSE, evs2 |-> <<>>] ELSE NoMust
+                 /\ must' = IF fire /\ ~inTab THEN [on |-> chord # <<>>, kind |-> IF chord # <<>> THEN "chord" ELSE "emptychord", evs |-> chord, on2 |-> FALSE, evs2 |-> <<>>, q |-> <<>>] ELSE NoMust
                  /\ pend' = IF fire /\ inTab THEN NoPend
                             ELSE IF fire THEN [pendC EXCEPT !.lo = @ + pend.interval * 1000, !.hi = @ + pend.interval * 1000]
                             ELSE pendC
@@ -198,7 +211,7 @@ ConsumeLine ==
                      \* without absorbing mappings: there the mapper considers held exactly the keys it was given, so it acts on the release
                      freshRel == one /\ r.e.t = "R" /\ r.e.k \in mphys /\ ~inTab /\ \A i \in 1..Len(lay): lay[i].absorbing = <<>>
                  IN
-                 /\ viol' = viol \cup Owed \cup AfterFailure
+                 /\ viol' = viol \cup OwedAtRead \cup AfterFailure
                        \cup Tag(ended, "C10-call-after-end-of-device")
                        \cup Tag(r.res = "busy" /\ kq1 # <<>>, "ENV-busy-with-data")
                        \cup Tag(one /\ (kq1 = <<>> \/ Head(kq1) # r.e), "ENV-wrong-event")
@@ -213,13 +226,14 @@ ConsumeLine ==
                  /\ kq' = (IF one THEN Tail(kq1) ELSE kq1) /\ tq' = tq1 /\ kN' = kN1 /\ tN' = tN1
                  /\ ended' = (ended \/ r.res = "end")
                  /\ must' = IF one /\ ~inTab
-                            THEN [on |-> r.ref.ev # <<>>, kind |-> "step", evs |-> r.ref.ev, on2 |-> afterTab /\ r.ref2.ev # <<>>, evs2 |-> r.ref2.ev]
+                            THEN [on |-> r.ref.ev # <<>>, kind |-> "step", evs |-> r.ref.ev, on2 |-> afterTab /\ r.ref2.ev # <<>>, evs2 |-> r.ref2.ev, q |-> QAfterRead]
+                            ELSE IF must.kind = "step" /\ ~isErr THEN [NoMust EXCEPT !.q = QAfterRead]      \* busy / end / read in tablet mode: what is owed stays owed
                             ELSE NoMust
                  /\ pend' = IF ~one \/ inTab THEN pendC
                             ELSE IF r.ref.rep.kind = "NoChange" THEN (IF fresh \/ freshRel THEN NoPend ELSE pendC)
                             ELSE IF r.ref.rep.kind = "Disabled" THEN NoPend
                             ELSE [on |-> TRUE, keys |-> r.ref.rep.keys, interval |-> r.ref.rep.interval, delay |-> r.ref.rep.delay,
-                                  lo |-> r.tout + r.ref.rep.delay * 1000, hi |-> 0, open |-> TRUE]
+                                  lo |-> r.tout + r.ref.rep.delay * 1000, hi |-> 0, open |-> TRUE, sent |-> FALSE]
                  /\ prevTimeout' = FALSE /\ onJust' = FALSE
                  /\ tabCleared' = (tabCleared /\ ~(one /\ ~inTab /\ r.ref.rep.kind = "Repeating"))
                  /\ phys' = (IF ~one THEN phys ELSE IF r.e.t = "P" THEN phys \cup {r.e.k} ELSE phys \ {r.e.k})
@@ -235,14 +249,31 @@ ConsumeLine ==
                  /\ tq' = (IF one THEN Tail(tq1) ELSE tq1) /\ kq' = kq1 /\ kN' = kN1 /\ tN' = tN1
                  /\ inTab' = (IF one THEN r.on ELSE inTab) /\ afterTab' = (afterTab \/ one) /\ tabCleared' = (tabCleared \/ one)
                  /\ pend' = IF one THEN NoPend ELSE pendC
-                 /\ must' = IF one THEN [on |-> r.ref.ev # <<>>, kind |-> "releaseall", evs |-> r.ref.ev, on2 |-> FALSE, evs2 |-> <<>>] ELSE NoMust
+                 /\ must' = IF one THEN [on |-> r.ref.ev # <<>>, kind |-> "releaseall", evs |-> r.ref.ev, on2 |-> FALSE, evs2 |-> <<>>, q |-> <<>>] ELSE NoMust
                  /\ onJust' = (one /\ r.on) /\ prevTimeout' = FALSE
                  /\ mphys' = (IF one THEN {} ELSE mphys)
                  /\ UNCHANGED <<ended, held, phys>>
             [] r.c = "send" ->
                  LET chordKeyHeld == must.on /\ must.kind = "chord" /\ \E k \in held: InSeq(pend.keys, k)
                      isChord == must.on /\ must.kind = "chord"
+                     \* a write owed for a key event read earlier comes first (see NoMust)
+                     older == must.q # <<>> /\ r.evs # <<>>
                  IN
+                 IF older THEN
+                 /\ viol' = viol \cup AfterFailure
+                       \cup Tag(ended, "C10-send-after-end-of-device")
+                       \cup Tag(inTab, "C12-send-in-tablet-mode")
+                       \cup Tag(r.evs # Head(must.q).evs, "C10-wrong-payload-step")
+                       \cup Tag(afterTab /\ r.evs # Head(must.q).evs2, "C12-not-fresh-after-tablet-mode")
+                       \cup Tag(~isErr /\ Redundant(held, r.evs), "C19-redundant-event-written-to-the-device")
+                 /\ Bump(4)
+                 /\ held' = (IF isErr THEN held ELSE HeldAfter(held, r.evs))
+                 /\ must' = [must EXCEPT !.q = Tail(@)]
+                 /\ pend' = (IF pend.on /\ pend.open THEN [pend EXCEPT !.lo = r.tout + pend.delay * 1000, !.sent = TRUE] ELSE pend)
+                 /\ kq' = kq1 /\ tq' = tq1 /\ kN' = kN1 /\ tN' = tN1
+                 /\ prevTimeout' = FALSE
+                 /\ UNCHANGED <<ended, inTab, afterTab, tabCleared, onJust, phys, mphys>>
+                 ELSE
                  /\ viol' = viol \cup AfterFailure
                        \cup Tag(ended, "C10-send-after-end-of-device")
                        \cup Tag(inTab /\ ~(must.on /\ must.kind = "releaseall"), "C12-send-in-tablet-mode")
@@ -265,7 +296,7 @@ ConsumeLine ==
                  /\ BumpIf(isChord, 3) /\ BumpIf(must.on /\ must.kind = "step", 4) /\ BumpIf(must.on /\ must.kind = "releaseall", 5)
                  /\ held' = (IF isErr THEN held ELSE HeldAfter(held, r.evs))
                  /\ must' = (IF r.evs = <<>> THEN must ELSE NoMust)
-                 /\ pend' = (IF pend.on /\ pend.open THEN [pend EXCEPT !.lo = r.tout + pend.delay * 1000] ELSE pend)
+                 /\ pend' = (IF pend.on /\ pend.open THEN [pend EXCEPT !.lo = r.tout + pend.delay * 1000, !.sent = TRUE] ELSE pend)
                  /\ kq' = kq1 /\ tq' = tq1 /\ kN' = kN1 /\ tN' = tN1
                  /\ prevTimeout' = (prevTimeout /\ r.evs = <<>>)
                  /\ UNCHANGED <<ended, inTab, afterTab, tabCleared, onJust, phys, mphys>>
